@@ -396,6 +396,9 @@ SPECS += [
          cmpops={("DT", "<", "DT"): "p_lt"}),
 ]
 
+from . import srcspecs_mem  # noqa: E402  (third extension, tag mem: MemoryTimeline / MutableTimeline)
+SPECS += srcspecs_mem.SPECS_MEM; HEADER = HEADER.rstrip("\n") + "\n" + srcspecs_mem.HEADER_MEM + "\n"  # noqa: E702
+
 
 def regenerate(repo: Path, coq_dir: Path):
     """Rewrite Gen/Source.v if its content changed.  Returns ({name: error}, text)."""
